@@ -145,11 +145,21 @@ def used_names(terms):
     return acc
 
 
-def emit(ctx, ob, model_terms=(), for_cvc5=False):
-    """SMT-LIB text deciding obligation ob: context assertions made before it, pc, negated condition."""
+def has_quant(t):
+    for x in subterms(t):
+        if x.op in ('forall', 'exists'):
+            return True
+    return False
+
+
+def emit(ctx, ob, model_terms=(), for_cvc5=False, ground=False):
+    """SMT-LIB text deciding obligation ob: context assertions made before it, pc, negated condition.
+    ground=True drops quantified context facts (used only to look for candidate counterexamples)."""
     asserts = ctx.asserts[:ob.nassert]
     goal = and_(ob.pc, not_(ob.cond))
     keep = relevant(asserts, goal)
+    if ground:
+        keep = [a for a in keep if not has_quant(a)]
     return emit_shared(ctx, keep, goal, model_terms, for_cvc5)
 
 
